@@ -417,29 +417,21 @@ def run(chk: Check):
 
 
 UNPROVED = [
-    'C15_simulation_all (ONE relation spec_rel (absS st) o (absS (step st o)) over the whole alphabet, pending lists in the '
-    'abstract state, and its corollary C15_histories_list_model) is still NOT stated.  All its ingredients are now proved '
-    'for every reachable state: contents of the target / created object per operation (C15_own_contents_*, '
-    'C15_simulation for the sharing-independent operations), assignments and in-place operators as functions of '
-    '(contents, R), the evolution of the sharing relation R (C15_links_growth = "growth cuts links, never creates one" = '
-    'S-C15d; C15_links_view/_copy/_fresh/_write), pending lists (pend, F_split: F = C ++ pending) with '
-    'C15_pending_isolated (growth of another object) and C15_pending_under_writes (no assignment / in-place operator '
-    'changes any pending element), refusals (C15_append_refused_nothing, C15_own_contents_extend_refused), shrink_data, '
-    'concatenate (axis 0 and 1), tuple indices, deep copy.  Missing: the definition of spec_rel over (alive, visible, '
-    'pending) x R for the 21 operations and the case analysis that assembles these theorems (for concatenate(axis=0) '
-    'also "the new object is linked to nothing")',
     'C15_view_write_through at full strength is false of the faithful model (C15_view_write_through_refuted, S-C15d); '
-    'proved: _partial (exactly the same-cell elements change, i.e. while the two objects share the buffer)',
-    'domain restrictions of the model (reported as EBadSeq, never generated): append / extend of an element with another '
-    'trailing shape to a sequence WITHOUT elements (it may define the shape), shrink_data() inside a cached build (API '
-    'misuse), concatenate(axis=1) of sequences without rows (AxisError on the 1-D initial buffer); seq[idx, cols] is '
-    'modelled as the view seq[idx] (one Z per row) and such objects are only read by the harness',
-    'Tractogram: extend / += , __getitem__, copy (deep clone), __add__ and apply_affine on a SLICED tractogram are proved on '
-    'the model (C15_tractogram_*); the non-sliced branch of apply_affine is not modelled: whole buffer in place — which for '
-    'a float64 view WITH REPEATS whose rows add up to the buffer (is_sliced_view misclassifies it) alters parent elements '
-    'the view does not contain: reported as a violation candidate with demo and fix proposal in '
-    '.work/c15_apply_affine_finding.md, not classified — or a NEW array that silently detaches every view (float32); '
-    'save/load not covered at all',
+    'proved: _partial (exactly the same-cell elements change, i.e. while the two objects share the buffer); in '
+    'C15_simulation_all the same fact is the clause "growth leaves the array names of the grown object open, but never '
+    'creates sharing"',
+    'C15_simulation_all / C15_histories_list_model are stated for reachable states (reachable st := exists ops, st = exec '
+    'init ops), not for arbitrary wf st: several ingredient theorems are proved through reachability only',
+    'domain restrictions of the model (reported as EBadSeq, never generated, and part of spec_rel as such): append / '
+    'extend of an element with another trailing shape to a sequence WITHOUT elements (it may define the shape), '
+    'shrink_data() inside a cached build (API misuse), concatenate(axis=1) of sequences without rows (AxisError on the '
+    '1-D initial buffer); seq[idx, cols] is modelled as the view seq[idx] (one Z per row) and such objects are only read '
+    'by the harness',
+    'Tractogram: extend / +=, __getitem__, copy (deep clone), __add__ and apply_affine on ANY VIEW (fix 3ae30612) are '
+    'proved on the model (C15_tractogram_*); the branch of apply_affine for a NON-view tractogram (whole buffer in place, '
+    'or a new array that detaches its views when np.dot(out=) refuses, e.g. float32 points — allowed, same mechanism as '
+    'S-C15d) is exercised by the harness only; save/load not covered at all',
 ]
 
 
